@@ -10,6 +10,7 @@ the command ran, and $? -- followed by a second command that checks nothing leak
 import json
 import random
 
+import structure
 from common import Report, ToolError, check_action_coverage, log, run_cases, run_tlc, stable_hash, std_main
 
 BAD = "/nonexistent-dir/x"
@@ -196,6 +197,8 @@ def runner(rep, tier, seed, replay):
     cases += [c for c in sim if len(c["rs"]) == 4]
     log("[C04] %d cases from TLC" % len(cases))
     lines = [render(c, random.Random(stable_hash(json.dumps(c, sort_keys=True)) ^ seed)) for c in cases]
+    # the same lines as the head of `if` / `else if` / `while` (separate code path: scripting.rs::run_exp_test_br)
+    structure.check_heads(rep, [{"entry": "c", "text": ln, "files": {"f1": "old\n"}} for ln in lines], random.Random(seed), 150 if tier == "quick" else 1500, "C04")
     results = run_cases([{"entry": "c", "text": ln, "files": {"f1": "old\n"}, "timeout": 20} for ln in lines])
     distinct = set()
     for c, ln, res in zip(cases, lines, results):
